@@ -171,9 +171,10 @@ class Fn:
             return "(" + ", ".join(p for p, _ in parts) + ")", "(" + " * ".join(t for _, t in parts) + ")"
         if isinstance(e, ast.List):
             parts = [self.expr(x) for x in e.elts]
-            if any(t != "str" for _, t in parts):
-                raise Unsupported("list of non-strings")
-            return "[" + "; ".join(p for p, _ in parts) + "]", "list str"
+            tys = {t for _, t in parts}
+            if len(tys) > 1:
+                raise Unsupported("list of values of different types")
+            return "[" + "; ".join(p for p, _ in parts) + "]", "list " + (tys.pop() if tys else "str")
         if isinstance(e, ast.Dict):
             items = []
             for k, v in zip(e.keys, e.values):
@@ -859,7 +860,9 @@ class Fn:
             return "(let '(%s) := %s in %s)" % (", ".join(names), v, self.block(rest))
         if isinstance(st, ast.Assign) and len(st.targets) == 1 and isinstance(st.targets[0], ast.Name) \
                 and isinstance(st.value, ast.List) and not st.value.elts and st.targets[0].id in self.spec.get("empty_lists", {}):
-            return self.bind(st.targets[0].id, "[]", self.spec["empty_lists"][st.targets[0].id], rest)
+            ty_ = self.spec["empty_lists"][st.targets[0].id]
+            elt_ = ty_[len("list "):]
+            return self.bind(st.targets[0].id, "(@nil %s)" % (elt_ if " " not in elt_ else "(%s)" % elt_), ty_, rest)
         if isinstance(st, ast.Assign) and len(st.targets) == 1:
             pat = dotted(st.targets[0])
             v, tv = self.expr(st.value)
@@ -1327,6 +1330,23 @@ SPECS = [
          kwcalls={"VariableResponse": ("pair", ["variable_id", "process_children"], ["R", "bool"], "(R * bool)")},
          eff_calls={"var_collector.new_var_id": dict(fn="new_var_id {<cache>}", args=["nat"], ret="nat", updates=["<cache>"])},
          stmt_calls={"var_collector.append_variable": dict(fn="append_variable {<table>}", updates=["<table>"], args=["nat", "X"])}),
+    # ---- one root (a frame's locals, a watch value): known objects answer at once, otherwise one traversal (C07, C05)
+    dict(group="Collect", name="gen_collect_root", path="processor/variable_set_processor.py", cls="VariableSetProcessor", func="process_variable",
+         params="{O C TB N W R : Type} (identity_of : O -> nat) (check_id : C -> nat -> option nat) (mk_initial : str -> O -> N) "
+                "(mk_start : list N -> W) (traverse : W -> C * TB -> C * TB) (mk_id : option nat -> str -> R) (to_string : O -> str) "
+                "(cache : C) (table : TB) (name : str) (value : O)",
+         ret="(C * TB) * (R * str)", args=["self", "name", "value"],
+         env={"name": ("name", "str"), "value": ("value", "O"), "self.search_function": ("tt", "unit")},
+         state={"<cache>": ("cache", "C"), "<table>": ("table", "TB")}, state_names={"<cache>": "cache", "<table>": "table"},
+         empty_lists={"var_ids": "list unit"},
+         local_classes={"FrameParent": "its add_child appends the reference to the list the caller reads (Collector.roots, tied by correspondence)"},
+         calls={"id": ("identity_of", ["O"], "nat"), "self.__var_cache.check_id": ("check_id {<cache>}", ["nat"], "option nat"),
+                "VariableId": ("mk_id", ["option nat", "str"], "R"), "self.__to_string": ("to_string", ["O"], "str"),
+                "FrameParent": ("tt", [], "unit"), "NodeValue": ("pair", ["str", "O"], "(str * O)"),
+                "Node": ("(fun (_ : option (str * O)) l_ (_ : unit) => mk_start l_)", ["option (str * O)", "list N", "unit"], "W")},
+         kwcalls={"Node": ("(fun (nv_ : str * O) (_ : unit) => mk_initial (fst nv_) (snd nv_))", ["value", "parent"], ["(str * O)", "unit"], "N")},
+         stmt_calls={"breadth_first_search": dict(fn="(fun w_ (_ : unit) => traverse w_ ({<cache>}, {<table>}))", updates=["<cache>", "<table>"],
+                                                  args=["W", "unit"])}),
     # ---- child discovery: the depth gate, the collection-size cap, private-name correction (C05, C06)
     dict(group="Children", name="gen_correct_names", path="processor/variable_processor.py", cls=None, func="correct_names",
          params="(name val : str)", ret="str", args=["name", "val"], env={"name": ("name", "str"), "val": ("val", "str")}),
